@@ -11,6 +11,7 @@ import (
 	"os"
 	"path/filepath"
 	"reflect"
+	"runtime"
 	"sort"
 	"strconv"
 	"strings"
@@ -241,8 +242,9 @@ func (h *histState) selNow(m *ModelReg) map[string]bool {
 func (h *histState) doRegister(i int, op *Op) {
 	d, done, pan := registerLate(op.R)
 	if pan != "" {
-		h.violate(Violation{Property: "C08", Class: "register_panic", Lint: d.Name, Op: i, Detail: "registering a new, uniquely named lint through the public API panicked: " + clip(pan, 200)})
-		h.aborted = true
+		// no property promises that registration after first use works; if it is refused the history simply goes on without it
+		h.ctr.inc("late_registration_refused")
+		h.log.Add("op %d register %s refused: %s", i, d.Name, clip(pan, 120))
 		return
 	}
 	if !done {
@@ -499,6 +501,27 @@ func (h *histState) lintCall(i int, p *Parsed, reg lint.Registry, path string, p
 	return cs, false
 }
 
+// beneathRule: is the statement being executed part of a rule (a lint's constructor, applicability test
+// or body) or of a helper called by one? Helper statements reached from the framework itself (the scope
+// gate) are not places where "a rule panics"; they are left alone.
+func beneathRule(site string) bool {
+	if !strings.HasPrefix(site, "util/") {
+		return true
+	}
+	var pcs [48]uintptr
+	n := runtime.Callers(3, pcs[:])
+	frames := runtime.CallersFrames(pcs[:n])
+	for {
+		f, more := frames.Next()
+		if strings.Contains(f.Function, "/v3/lints/") {
+			return true
+		}
+		if !more {
+			return false
+		}
+	}
+}
+
 // rawLint runs the lints of a registry over a certificate on the given path without any check
 // (the counting pass of the panic injection).
 func (h *histState) rawLint(p *Parsed, reg lint.Registry, path string, perm uint64) {
@@ -645,7 +668,11 @@ func (h *histState) doLint(i int, op *Op) {
 		// pass 1, on a fresh twin: which statements of rule bodies and helpers does this call execute, how often?
 		counts := map[string]int{}
 		if twin, err := parseObj(o.spec.Kind, o.spec.DER); err == nil {
-			setStmtHook(func(site string) { counts[site]++ })
+			setStmtHook(func(site string) {
+				if beneathRule(site) {
+					counts[site]++
+				}
+			})
 			func() {
 				defer func() { recover() }()
 				h.rawLint(twin, h.regs[op.Reg], path, op.Perm)
@@ -677,7 +704,7 @@ func (h *histState) doLint(i int, op *Op) {
 			arm = func() {
 				k := 0
 				setStmtHook(func(site string) {
-					if site != target {
+					if site != target || !beneathRule(site) {
 						return
 					}
 					if k == occ {
